@@ -352,20 +352,18 @@ def unary_data(run, rng, count):
         if ok:
             continue
         if arch == "tree" and has_zero_block(data):
+            # repaired defect (zero partial norm -> acos(0/0)): a VIOLATION if it returns
             stats["tree_zero_block_nan"] += 1
-            if data == [0.0, 0.0, 1.0, 2.0]:
-                run.find("unary:tree:zero-partial-norm:[0,0,1,2]",
-                         "unary_encoder(data, 'tree') divides by a zero partial norm (acos(0/0)): NaN angles/amplitudes "
-                         "whenever an aligned block data[2^m j : 2^m (j+1)] (m >= 1) is entirely zero; 'diagonal' handles the same data",
-                         {"data": data, "architecture": arch, "amplitudes": None if amps is None else [str(a) for a in amps], "error": err})
-                run.sample({"known_defect": "unary tree zero block", "data": data, "amplitudes": None if amps is None else [str(a) for a in amps]})
+            run.find("unary:tree:zero-partial-norm:" + json.dumps([int(x) if float(x).is_integer() else x for x in data]).replace(" ", ""),
+                     "unary_encoder(data, 'tree') divides by a zero partial norm (acos(0/0)): NaN angles/amplitudes when an aligned "
+                     "block data[2^m j : 2^m (j+1)] (m >= 1) is entirely zero",
+                     {"data": data, "architecture": arch, "amplitudes": None if amps is None else [str(a) for a in amps], "error": err})
             continue
         run.find(f"unary:data:{arch}:{hashlib.sha1(json.dumps(data).encode()).hexdigest()[:10]}",
                  "unary_encoder amplitudes differ from data/||data||",
                  {"data": data, "architecture": arch, "amplitudes": None if amps is None else [str(a) for a in amps], "error": err})
-    # the exact condition: every tree input WITHOUT an all-zero aligned block is handled (checked above), and
-    # every input WITH one yields NaN (checked here on all 0/1 patterns of length 4 and 8 that are not all zero)
-    bad_without_nan = []
+    # every 0/1 pattern of length 4 and 8 (all placements of all-zero aligned blocks) must be loaded exactly
+    bad = []
     for n in (4, 8):
         for pat in itertools.product([0.0, 1.0], repeat=n):
             if not any(pat):
@@ -373,16 +371,19 @@ def unary_data(run, rng, count):
             with warnings.catch_warnings():
                 warnings.simplefilter("ignore")
                 try:
-                    amps, _ = unary_amplitudes(unary_encoder(np.array(pat), "tree"), n)
-                    nan = bool(np.isnan(amps).any())
+                    amps, rest = unary_amplitudes(unary_encoder(np.array(pat), "tree"), n)
+                    okp = (not np.isnan(amps).any()) and np.abs(amps - np.array(pat) / np.linalg.norm(pat)).max() < TOL \
+                        and np.abs(rest).max() < TOL
                 except Exception:
-                    nan = True
-            run.case(["unary_tree_pattern", list(pat)], nontrivial=False)
-            if nan != has_zero_block(list(pat)):
-                bad_without_nan.append(list(pat))
-    if bad_without_nan:
-        run.find("unary:tree:nan-condition", "NaN condition of the tree architecture is not 'an all-zero aligned block'",
-                 {"patterns": bad_without_nan[:5]}, concrete=False)
+                    okp = False
+            run.case(["unary_tree_pattern", list(pat)], nontrivial=has_zero_block(list(pat)))
+            stats["tree_zero_block_patterns"] = stats.get("tree_zero_block_patterns", 0) + has_zero_block(list(pat))
+            if not okp:
+                bad.append(list(pat))
+    for pat in bad[:3]:
+        run.find("unary:tree:zero-partial-norm:" + json.dumps([int(x) for x in pat]).replace(" ", ""),
+                 "unary_encoder(data, 'tree') does not load a 0/1 pattern with an all-zero aligned block",
+                 {"data": pat, "architecture": "tree"})
     return stats
 
 
@@ -559,9 +560,7 @@ def binary_data(run, rng, count):
         if ok:
             continue
         if par == "hopf" and has_zero_block([float(abs(x)) for x in data]):
-            stats["hopf_zero_block"] += 1      # same acos(0/0) as the tree unary encoder (_generate_rbs_angles 'tree')
-            BIN_HOPF_ZERO.append(desc)
-            continue
+            stats["hopf_zero_block"] += 1      # repaired defect (tree angle generator): a VIOLATION if it returns
         run.find(f"binary:data:{hashlib.sha1(json.dumps(desc).encode()).hexdigest()[:10]}",
                  "binary_encoder amplitudes differ from data/||data||", {**desc, "error": err, "state": None if s is None else [str(x) for x in s]})
     return stats
@@ -617,7 +616,7 @@ def hopf_zero_block(run):
     if bad:
         run.find("binary:hopf:zero-partial-norm:[0,0,1,2]",
                  "binary_encoder(data, 'hopf') uses the tree angle generator and hits the same acos(0/0): NaN amplitudes when an "
-                 "aligned block of the data is entirely zero", {"data": [0, 0, 1, 2], "error": err, "state": None if s is None else [str(x) for x in s]})
+                 "aligned block of the data is entirely zero (repaired; a VIOLATION if it returns)", {"data": [0, 0, 1, 2], "error": err, "state": None if s is None else [str(x) for x in s]})
 
 
 RULE = ("QFT: n=1..5 (6 thorough) operator obligations (both variants), n<=12 structure; comp_basis: random bit strings in all accepted "
@@ -665,7 +664,7 @@ def main(run):
         "tested against the simulator for n<=8), and the gate-list structure (qft_structure)",
         "ehrlich_enumerates for all n: NOT proved; proved by vm_compute for every 1 <= k < n <= 10 (bound stated in the theorem)",
         "unary_tree_ok / hw_encoder_ok / binary_encoder amplitudes for all data: NOT proved (angles are acos/atan2 of data); "
-        "proved: RBS chains act as 2x2 rotations on unary amplitudes and the diagonal chain loads x_k/N_0 (ring level, all n); the rest is tested",
+        "proved: RBS chains act as 2x2 rotations on unary amplitudes, the diagonal chain and the recursive tree loader load x_k/N_0 (ring level, all n, no division: zero blocks included; unary_diagonal_ok_ring, unary_tree_ok_ring); NOT proved: the breadth-first RBS gate list computes the recursive tree form; angle formulas (acos/atan2) satisfy the load equations; both are covered by the data-level tests incl. all 0/1 patterns of length 4 and 8",
     ]
     qft_structure(run, 12)
     qft_instances(run, 6 if thorough else 5)
